@@ -24,6 +24,7 @@ var checks = map[string]func(*Ctx){
 	"C05": checkC05,
 	"C06": checkC06,
 	"C07": checkC07,
+	"C08": checkC08,
 	"C12": checkC12,
 	"C13": checkC13,
 	"C15": checkC15,
